@@ -1565,7 +1565,8 @@ def rules(tier):
             # C05-fa: find_keyboard_row_column returns None for blanks; one of three uses in the caller is guarded
             ('C05.R24', r24_optional_results),
             # C06-ga: the walks of the recursive call merged only when the recursive call detected a layout
-            ('C05.R25', r25_recursive_merge)]
+            ('C05.R25', r25_recursive_merge),
+            ('C05.R26', _shared_rule('c03', 'r22_other_label_and_count'))]
 
 
 META = {
